@@ -17,48 +17,59 @@ VARIABLES l,        \* next line
           sc,       \* scenario of the current run (from the reset event)
           live,     \* secrets allocated and not yet released
           freed,    \* secrets released
+          kdec,     \* system key (kid) -> KMS unwraps since the warm-up
+          warm,     \* the warm-up is over
           holders   \* part -> set of <<goroutine, session object>> currently holding a session of that partition
 
-mvars == <<l, sc, live, freed, holders>>
+mvars == <<l, sc, live, freed, kdec, warm, holders>>
 ev == TraceLog[l]
 IsEv(e) == l <= Len(TraceLog) /\ ev.e = e /\ l' = l + 1
 
-MInit == l = 1 /\ sc = [name |-> ""] /\ live = {} /\ freed = {} /\ holders = <<>>
+MInit == l = 1 /\ sc = [name |-> ""] /\ live = {} /\ freed = {} /\ holders = <<>> /\ kdec = <<>> /\ warm = FALSE
 
-Reset == IsEv("reset") /\ sc' = ev.scenario /\ live' = {} /\ freed' = {} /\ holders' = <<>>
+Reset == IsEv("reset") /\ sc' = ev.scenario /\ live' = {} /\ freed' = {} /\ holders' = <<>> /\ kdec' = <<>> /\ warm' = FALSE
 
-Alloc == IsEv("alloc") /\ live' = live \cup {ev.sid} /\ UNCHANGED <<sc, freed, holders>>
+Alloc == IsEv("alloc") /\ live' = live \cup {ev.sid} /\ UNCHANGED <<sc, freed, holders, kdec, warm>>
 
 \* C08: a key obtained from a cache is usable: no access ever hits a destroyed secret
-Use == IsEv("use") /\ ev.sid \in live /\ UNCHANGED <<sc, live, freed, holders>>
+Use == IsEv("use") /\ ev.sid \in live /\ UNCHANGED <<sc, live, freed, holders, kdec, warm>>
 \* (the event "use-after-close" has no action: a run containing one is rejected at that line)
 
 \* C09/C16: released exactly once
 Free == IsEv("free") /\ ev.sid \in live /\ ev.sid \notin freed
-        /\ live' = live \ {ev.sid} /\ freed' = freed \cup {ev.sid} /\ UNCHANGED <<sc, holders>>
+        /\ live' = live \ {ev.sid} /\ freed' = freed \cup {ev.sid} /\ UNCHANGED <<sc, holders, kdec, warm>>
 
-OpStart == IsEv("opstart") /\ UNCHANGED <<sc, live, freed, holders>>
+OpStart == IsEv("opstart") /\ UNCHANGED <<sc, live, freed, holders, kdec, warm>>
 
 \* C08 / C16: every operation that is not racing with the close of its own session or factory succeeds with the right bytes
-OpRet == IsEv("opret") /\ ev.ok /\ ev.match /\ UNCHANGED <<sc, live, freed, holders>>
+OpRet == IsEv("opret") /\ ev.ok /\ ev.match /\ UNCHANGED <<sc, live, freed, holders, kdec, warm>>
 
 \* C16: while a partition's session is cached (no eviction possible in this scenario), concurrent holders share one session
 Held(p) == IF p \in DOMAIN holders THEN holders[p] ELSE {}
 Session == /\ IsEv("session")
            /\ (sc.sessCache /\ sc.sessCap >= sc.parts /\ sc.sessExpiry = 0) => \A h \in Held(ev.part) : h[2] = ev.sptr
            /\ holders' = (ev.part :> (Held(ev.part) \cup {<<ev.g, ev.sptr>>})) @@ holders
-           /\ UNCHANGED <<sc, live, freed>>
+           /\ UNCHANGED <<sc, live, freed, kdec, warm>>
 Release == /\ IsEv("release")
            /\ holders' = (ev.part :> (Held(ev.part) \ {<<ev.g, ev.sptr>>})) @@ holders
-           /\ UNCHANGED <<sc, live, freed>>
+           /\ UNCHANGED <<sc, live, freed, kdec, warm>>
 
 \* after the factory is closed (and asynchronous session teardown has finished) nothing is left, nothing was closed twice
-Closed == IsEv("closed") /\ ev.live = 0 /\ ev.doubleClose = 0 /\ live = {} /\ UNCHANGED <<sc, live, freed, holders>>
+Closed == IsEv("closed") /\ ev.live = 0 /\ ev.doubleClose = 0 /\ live = {} /\ UNCHANGED <<sc, live, freed, holders, kdec, warm>>
+
+\* C20 (concurrent part): all cached keys went stale at once (clock jumped past the revoke-check interval after the warm-up, no
+\* tick since); however many sessions hit the stale system key concurrently, it is unwrapped by the KMS once
+Warm == IsEv("warm") /\ warm' = TRUE /\ UNCHANGED <<sc, live, freed, holders, kdec>>
+Kms == /\ IsEv("kms")
+       /\ LET n == IF ev.kid \in DOMAIN kdec THEN kdec[ev.kid] ELSE 0 IN
+          /\ (warm /\ ev.call = "Dec" /\ ev.fault = "none") => n = 0
+          /\ kdec' = IF warm /\ ev.call = "Dec" THEN (ev.kid :> n + 1) @@ kdec ELSE kdec
+       /\ UNCHANGED <<sc, live, freed, holders, warm>>
 
 \* no deadlock / livelock / panic in this schedule
-Final == IsEv("final") /\ ev.dead = "" /\ ev.panic = "" /\ UNCHANGED <<sc, live, freed, holders>>
+Final == IsEv("final") /\ ev.dead = "" /\ ev.panic = "" /\ UNCHANGED <<sc, live, freed, holders, kdec, warm>>
 
-MNext == Reset \/ Alloc \/ Use \/ Free \/ OpStart \/ OpRet \/ Session \/ Release \/ Closed \/ Final
+MNext == Reset \/ Warm \/ Kms \/ Alloc \/ Use \/ Free \/ OpStart \/ OpRet \/ Session \/ Release \/ Closed \/ Final
 MSpec == MInit /\ [][MNext]_mvars
 
 Disjoint == live \cap freed = {}
